@@ -14,7 +14,8 @@ RULE = ("Cases: (trad) traditional strings rendered from generated unit parts wi
         "letter case, inner whitespace, decimal point/comma in the smallest unit, optional "
         "'s'; (iso) ISO 8601 strings incl. 0Y/0M; (num) numbers/None for time_period; "
         "(timestr/approx) round trips of integers dense at unit boundaries and of decimal "
-        "fractions with 0..6 digits; (bad) grammar-generated malformed strings; (soup) strings glued "
+        "fractions with 0..6 digits, also just below a minute / hour / day boundary so that the rounding carries "
+        "into the next unit; (bad) grammar-generated malformed strings; (soup) strings glued "
         "from the tokens of both notations (numbers, unit letters, P/T/Y/M, white space, signs, stray "
         "marks) by mutating a nearly valid skeleton, accept/reject and value compared with a hand-written "
         "recursive-descent reading of the documented grammar. Thorough adds "
@@ -138,6 +139,20 @@ def decimal_value(draw):
     return [ip, nd, frac]
 
 
+@st.composite
+def carry_value(draw):
+    """a float so close below a minute / hour / day boundary that rounding to fewer decimals carries into
+    the next larger unit (possibly one that would not be printed otherwise)"""
+    unit = draw(st.sampled_from([60, 3600, 3600, 86400, 86400]))
+    k = draw(st.sampled_from([1, 1, 1, 2, 10, 24]))
+    nd = draw(st.integers(1, 9))
+    ip = k * unit - 1
+    if nd > 6:
+        ip = ip % 100000 if (ip % 100000 + 1) % unit == 0 else unit - 1
+    frac = 10 ** nd - 1 - draw(st.sampled_from([0, 0, 1, 3, 4, 5]))
+    return [ip, nd, max(frac, 0)]
+
+
 num_cases = st.one_of(
     st.just({'k': 'num', 'kind': 'none'}),
     st.integers(-10 ** 6, 10 ** 7).map(lambda n: {'k': 'num', 'kind': 'int', 'v': n}),
@@ -151,10 +166,14 @@ timestr_cases = st.one_of(
         lambda t: {'k': 'timestr', 'n': t[0], 'sep': t[1]}),
     st.tuples(decimal_value(), st.one_of(st.integers(0, 6), st.integers(0, 9)), st.sampled_from(['', ' '])).map(
         lambda t: {'k': 'timestrf', 'v': t[0], 'prec': t[1], 'sep': t[2]}),
+    st.tuples(carry_value(), st.integers(0, 8), st.sampled_from(['', ' '])).map(
+        lambda t: {'k': 'timestrf', 'v': t[0], 'prec': min(t[1], max(t[0][1] - 1, 0)), 'sep': t[2]}),
 )
 approx_cases = st.one_of(
     some_int.map(lambda n: {'k': 'approx', 'v': [n, 0, 0], 'float': False, 'sep': ''}),
     st.tuples(decimal_value(), st.sampled_from(['', ' '])).map(
+        lambda t: {'k': 'approx', 'v': t[0], 'float': True, 'sep': t[1]}),
+    st.tuples(carry_value(), st.sampled_from(['', ' '])).map(
         lambda t: {'k': 'approx', 'v': t[0], 'float': True, 'sep': t[1]}),
 )
 
